@@ -319,7 +319,10 @@ def serialize_to_xml(elements: Iterable[Any],
         else:
             if cks and cks[0].startswith(b'<?'):
                 cks[0] = cks[0].replace(b'\'', b'"')
-            chunks.append(b'\n'.join(cks).decode('utf-8').rstrip(elem.tail))
+            if len(cks) > 1 and cks[0].startswith(b'<?') and not cks[0].endswith(b'\n'):
+                cks[0] += b'\n'
+            # The chunks are buffers of arbitrary size, not lines
+            chunks.append(b''.join(cks).decode('utf-8').rstrip(elem.tail))
 
     if not character_map:
         return (item_separator or '').join(chunks)
@@ -364,7 +367,11 @@ def serialize_to_json(elements: Iterable[Any],
                     else:
                         if chunks and chunks[0].startswith(b'<?'):
                             chunks[0] = chunks[0].replace(b'\'', b'"')
-                        return b'\n'.join(chunks).decode('utf-8')
+                        if len(chunks) > 1 and chunks[0].startswith(b'<?') and \
+                                not chunks[0].endswith(b'\n'):
+                            chunks[0] += b'\n'
+                        # The chunks are buffers of arbitrary size, not lines
+                        return b''.join(chunks).decode('utf-8')
 
                 elif isinstance(obj, (AttributeNode, NamespaceNode)):
                     return f'{obj.name}="{obj.string_value}"'
